@@ -21,13 +21,17 @@ REQUIRED = {t: ["oracle:C12.content-independent-of-dontcare", "oracle:C12.reenco
 def plan(tier, seed):
     return plan_codec(tier, seed, ["C12"], quick_n=250, scr_k=5 if tier == "quick" else 25,
                       thorough_budget=60,
-                      extra=[{"kind": "container-scramble", "n": 60 if tier == "quick" else 1500}])
+                      extra=[{"kind": "container-scramble", "n": 60 if tier == "quick" else 1500},
+                             {"kind": "container-layout", "n": 300 if tier == "quick" else 20000}])
 
 
 def run_shard(desc, rec):
     if desc["kind"] == "container-scramble":
         from ..drivers import layout
         return layout.shard_container_scramble(desc, rec)
+    if desc["kind"] == "container-layout":
+        from ..drivers import layout
+        return layout.shard_container_layout(desc, rec)
     codec.run_shard(desc, rec)
 
 
